@@ -4094,7 +4094,7 @@ pub struct Context {
     idm: Singleton<IdManager>,
     document: Rc<XmlItem>,
     ordering: Singleton<DocumentOrder>,
-    id_map: Singleton<HashMap<usize, Weak<XmlItem>>>,
+    id_map: Singleton<HashMap<usize, WeakItem>>,
     text_expanded: bool,
 }
 
@@ -4122,7 +4122,7 @@ impl Context {
         let id_map = singleton(HashMap::new());
         id_map
             .borrow_mut()
-            .insert(info.borrow().id, Rc::downgrade(&document));
+            .insert(info.borrow().id, WeakItem::from(&*document));
 
         Context {
             info,
@@ -4137,7 +4137,7 @@ impl Context {
     fn add_item(&self, node: &Rc<XmlItem>) {
         self.id_map
             .borrow_mut()
-            .insert(self.info.borrow().id, Rc::downgrade(node));
+            .insert(self.info.borrow().id, WeakItem::from(&**node));
     }
 
     fn document(&self) -> XmlNode<XmlDocument> {
@@ -4210,6 +4210,74 @@ impl Context {
             ordering: self.ordering.clone(),
             id_map: self.id_map.clone(),
             text_expanded: self.text_expanded,
+        }
+    }
+}
+
+// -----------------------------------------------------------------------------------------------
+
+/// Entry of `Context::id_map`.  It refers to the node itself, not to one of the `Rc<XmlItem>`
+/// wrappers around it, so that a node can be found as long as it is alive.
+enum WeakItem {
+    Attribute(Weak<RefCell<XmlAttribute>>),
+    CData(Weak<RefCell<XmlCData>>),
+    CharReference(Weak<RefCell<XmlCharReference>>),
+    Comment(Weak<RefCell<XmlComment>>),
+    DeclarationAttList(Weak<RefCell<XmlDeclarationAttList>>),
+    Document(Weak<RefCell<XmlDocument>>),
+    DocumentType(Weak<RefCell<XmlDocumentTypeDeclaration>>),
+    Element(Weak<RefCell<XmlElement>>),
+    Entity(Weak<RefCell<XmlEntity>>),
+    Namespace(Weak<RefCell<XmlNamespace>>),
+    Notation(Weak<RefCell<XmlNotation>>),
+    PI(Weak<RefCell<XmlProcessingInstruction>>),
+    Text(Weak<RefCell<XmlText>>),
+    Unexpanded(Weak<RefCell<XmlUnexpandedEntityReference>>),
+    Unparsed(Weak<RefCell<XmlUnparsedEntity>>),
+}
+
+impl From<&XmlItem> for WeakItem {
+    fn from(value: &XmlItem) -> Self {
+        match value {
+            XmlItem::Attribute(v) => WeakItem::Attribute(Rc::downgrade(v)),
+            XmlItem::CData(v) => WeakItem::CData(Rc::downgrade(v)),
+            XmlItem::CharReference(v) => WeakItem::CharReference(Rc::downgrade(v)),
+            XmlItem::Comment(v) => WeakItem::Comment(Rc::downgrade(v)),
+            XmlItem::DeclarationAttList(v) => WeakItem::DeclarationAttList(Rc::downgrade(v)),
+            XmlItem::Document(v) => WeakItem::Document(Rc::downgrade(v)),
+            XmlItem::DocumentType(v) => WeakItem::DocumentType(Rc::downgrade(v)),
+            XmlItem::Element(v) => WeakItem::Element(Rc::downgrade(v)),
+            XmlItem::Entity(v) => WeakItem::Entity(Rc::downgrade(v)),
+            XmlItem::Namespace(v) => WeakItem::Namespace(Rc::downgrade(v)),
+            XmlItem::Notation(v) => WeakItem::Notation(Rc::downgrade(v)),
+            XmlItem::PI(v) => WeakItem::PI(Rc::downgrade(v)),
+            XmlItem::Text(v) => WeakItem::Text(Rc::downgrade(v)),
+            XmlItem::Unexpanded(v) => WeakItem::Unexpanded(Rc::downgrade(v)),
+            XmlItem::Unparsed(v) => WeakItem::Unparsed(Rc::downgrade(v)),
+        }
+    }
+}
+
+impl WeakItem {
+    fn upgrade(&self) -> Option<Rc<XmlItem>> {
+        match self {
+            WeakItem::Attribute(v) => v.upgrade().map(|v| Rc::new(XmlItem::Attribute(v))),
+            WeakItem::CData(v) => v.upgrade().map(|v| Rc::new(XmlItem::CData(v))),
+            WeakItem::CharReference(v) => v.upgrade().map(|v| Rc::new(XmlItem::CharReference(v))),
+            WeakItem::Comment(v) => v.upgrade().map(|v| Rc::new(XmlItem::Comment(v))),
+            WeakItem::DeclarationAttList(v) => {
+                v.upgrade().map(|v| Rc::new(XmlItem::DeclarationAttList(v)))
+            }
+            WeakItem::Document(v) => v.upgrade().map(|v| Rc::new(XmlItem::Document(v))),
+            WeakItem::DocumentType(v) => v.upgrade().map(|v| Rc::new(XmlItem::DocumentType(v))),
+            WeakItem::Element(v) => v.upgrade().map(|v| Rc::new(XmlItem::Element(v))),
+            WeakItem::Entity(v) => v.upgrade().map(|v| Rc::new(XmlItem::Entity(v))),
+            WeakItem::Namespace(v) => v.upgrade().map(|v| Rc::new(XmlItem::Namespace(v))),
+            WeakItem::Notation(v) => v.upgrade().map(|v| Rc::new(XmlItem::Notation(v))),
+            WeakItem::PI(v) => v.upgrade().map(|v| Rc::new(XmlItem::PI(v))),
+            WeakItem::Text(v) => v.upgrade().map(|v| Rc::new(XmlItem::Text(v))),
+            WeakItem::Unexpanded(v) => v.upgrade().map(|v| Rc::new(XmlItem::Unexpanded(v))),
+            WeakItem::Unparsed(v) => v.upgrade().map(|v| Rc::new(XmlItem::Unparsed(v))),
         }
     }
 }
